@@ -107,7 +107,12 @@ func (s *Sim) kRestart(p *corev1.Pod, reason string) {
 	if len(p.Status.ContainerStatuses) == 0 {
 		return
 	}
-	cs := &p.Status.ContainerStatuses[0]
+	// which container restarts is a function of the pod's history (no PRNG draw in actors)
+	total := 0
+	for _, x := range p.Status.ContainerStatuses {
+		total += int(x.RestartCount)
+	}
+	cs := &p.Status.ContainerStatuses[int(hash64(p.Name, fmt.Sprint(total))%uint64(len(p.Status.ContainerStatuses)))]
 	cs.RestartCount++
 	cs.Ready = false
 	cs.LastTerminationState = corev1.ContainerState{Terminated: &corev1.ContainerStateTerminated{Reason: reason, ExitCode: 1, FinishedAt: now}}
